@@ -7,7 +7,15 @@
 #include "sim/engine.hpp"
 #include "sim/tsg_common.hpp"
 #include "sim/simfs.hpp"
+#ifdef C17_PARALLEL
+// parallel mode: the same crash/restart engine, but every process runs constructCommon<mode_parallel> under the thread
+// simulator (sim/simrt): the kill instant is a file-system or model event of a seeded thread schedule, so it can fall while
+// workers hold samples that have been computed but not yet collected (thr flavour: no ASan, the race detector is off here - C18 owns races)
+#include "sim/simrt.hpp"
+namespace simrt { void sim_fatal_notify() { sim::write_crash_line("sim-fatal"); } }
+#else
 #include "sim/newdelete.hpp"
+#endif
 #include "TasmanianAddons.hpp"
 #include <set>
 #include <typeinfo>
@@ -100,7 +108,13 @@ public:
         Json mk2 = Json::object(); for (auto &kv : mk.o) if (kv.first != "conformal") mk2[kv.first] = kv.second;
         p["make"] = mk2;
         int d = (int)mk2.geti("dims");
+#ifdef C17_PARALLEL
+        p["mode"] = "par";
+        { Rng s = rng.fork("schedule"); Json sc = Json::object(); sc["seed"] = (long long)(s.next() >> 12); sc["strategy"] = s.pick<int>({1, 1, 1, 2, 2, 0, 3, 4}); sc["pct_depth"] = s.range(0, 3); sc["pct_events"] = s.pick<int>({50, 300, 1500});
+          sc["starve"] = s.range(0, 3); sc["p_spurious"] = s.pick<double>({0.0, 0.0, 0.05}); sc["signal_policy"] = s.range(0, 2); sc["latency"] = s.pick<std::string>({"zero", "uniform", "slow-one"}); sc["lat_seed"] = (long long)(s.next() >> 40); p["sched"] = sc; }
+#else
         p["mode"] = "seq";
+#endif
         p["jobs"] = w.range(1, 4); p["batch"] = w.range(1, 3);
         p["budget"] = w.pick<int>({5, 8, 12, 20, 30, 45, 60});
         p["tol"] = w.pick<double>({1e-2, 1e-3, 1e-5}); p["criteria"] = w.pick<std::string>({"classic", "parents", "direction", "fds", "stable"});
@@ -123,7 +137,7 @@ public:
         if (large) {
             Json lg = Json::object();
             std::string lf = w.pick<std::string>({"localp", "localp", "semi-localp", "fourier", "sequence", "global"});
-            lg["family"] = lf; p["large"] = lg; p["mode"] = "seq";
+            lg["family"] = lf; p["large"] = lg;
             p["budget_extra"] = w.range(4, 24);
             for (auto &c : cr.a) { c["bias"] = f.pick<std::string>({"checkpoint", "checkpoint", "any"}); c["tear"] = f.pick<double>({-1.0, -3.0, -8.0, -17.0, -40.0, 0.999, 0.5, f.uniform()}); }
         }
@@ -179,7 +193,7 @@ public:
     // one process on the current simfs image; crash_at < 0: no kill
     void runProcess(const Json &p, int process, long crash_at, double tear, TasmanianSparseGrid &grid, ProcLog &L) {
         simfs::FS &F = simfs::fs();
-        F.fds.clear(); F.event_count = 0; F.crash_at = crash_at; F.crash_tear = tear; F.frozen = false; F.image.clear(); F.record = true; F.events.clear();
+        F.fds.clear(); F.event_count = 0; F.crash_torn_at = 0; F.crash_at = crash_at; F.crash_tear = tear; F.frozen = false; F.image.clear(); F.record = true; F.events.clear();
         F.on_close = [&](const std::string &path, bool wasWrite) {
             if (!wasWrite || path != MAIN) return;
             auto it = F.files.find(MAIN); if (it == F.files.end()) return;
@@ -188,7 +202,13 @@ public:
         };
         makeUserGrid(grid, p, process);
         int d = grid.getNumDimensions(), outs = grid.getNumOutputs();
-        auto model = [&](std::vector<double> const &x, std::vector<double> &y, size_t) {
+        auto model = [&](std::vector<double> const &x, std::vector<double> &y, size_t tid) {
+            (void)tid;
+#ifdef C17_PARALLEL
+            simrt::Ignore ig;
+            if (p.has("sched")) { const Json &sc = p.at("sched"); std::string lk = sc.gets("latency", "zero");
+                if (lk != "zero") { Hash h; h.i(sc.geti("lat_seed", 1)); for (double v : x) h.d(v); double u = (double)(h.h >> 11) * (1.0 / 9007199254740992.0); simrt::sleep((lk == "slow-one" && tid == 0 ? 50.0 : 1.0) * (0.1 + u)); } }
+#endif
             F.event("model");
             size_t n = x.size() / (size_t)d;
             if (!F.frozen) for (size_t i = 0; i < n; i++) L.model_calls.push_back(rounded(&x[i * d], d));
@@ -210,13 +230,32 @@ public:
             if (byout) return g.getCandidateConstructionPoints(depthOf(t), 0, std::vector<int>());
             return g.getCandidateConstructionPoints(depthOf(t), aw, std::vector<int>());
         };
+        auto body = [&]() {
         try {
             if (!local && !grid.isGlobal() && !grid.isSequence() && !grid.isFourier()) throw std::runtime_error("unknown family");
+#ifdef C17_PARALLEL
+            if (local && p.getb("initial_guess")) TasGrid::constructCommon<TasGrid::mode_parallel, TasGrid::with_initial_guess>(model, budget, jobs, batch, grid, cand, MAIN);
+            else TasGrid::constructCommon<TasGrid::mode_parallel, TasGrid::no_initial_guess>(model, budget, jobs, batch, grid, cand, MAIN);
+#else
             if (local && p.getb("initial_guess")) TasGrid::constructCommon<TasGrid::mode_sequential, TasGrid::with_initial_guess>(model, budget, jobs, batch, grid, cand, MAIN);
             else TasGrid::constructCommon<TasGrid::mode_sequential, TasGrid::no_initial_guess>(model, budget, jobs, batch, grid, cand, MAIN);
+#endif
         } catch (std::exception &e) {
             if (!F.frozen) L.escaped = std::string(typeid(e).name()) + ": " + e.what(); // an exception in the ghost is of no interest
         }
+        };
+#ifdef C17_PARALLEL
+        {
+            simrt::Config cfg; const Json &sc = p.at("sched");
+            cfg.seed = (uint64_t)sc.geti("seed", 1) + 7919u * (uint64_t)process; cfg.strategy = (int)sc.geti("strategy", 1); cfg.pct_depth = (int)sc.geti("pct_depth", 1); cfg.pct_events = (uint64_t)sc.geti("pct_events", 300);
+            cfg.starve = (int)sc.geti("starve", 1); cfg.p_spurious = sc.getd("p_spurious", 0); cfg.signal_policy = (int)sc.geti("signal_policy", 0); cfg.race_detect = false; cfg.step_cap = 3000000;
+            char ctx[64]; snprintf(ctx, sizeof ctx, "run-index=%lld", (long long)g_current_index); simrt::set_fatal_context(ctx);
+            simrt::Result R = simrt::run(cfg, body);
+            if (F.st) { F.st->inc("sim.sched_steps", (long)R.steps); F.st->inc("sim.context_switches", (long)R.switches); F.st->inc("fault.spurious_wakeup", (long)R.spurious); F.st->inc("sim.simulated_ms", (long)(R.sim_time * 1e3)); F.st->distinct2.insert(R.sync_hash); }
+        }
+#else
+        body();
+#endif
         F.on_close = nullptr;
         L.events = F.event_count; L.killed = F.frozen;
     }
